@@ -126,18 +126,25 @@ pub proof fn lemma_sec_rows_len(start: u32, es: Seq<XrefEntry>, i: int)
     requires 0 <= i ensures sec_rows(start, es, i).len() == 7 * i decreases i
 { if i > 0 { lemma_sec_rows_len(start, es, i - 1); } }
 
-pub open spec fn secs_stream(secs: Seq<XrefSection>, k: int) -> Seq<u8> decreases k {
-    if k <= 0 { Seq::<u8>::empty() } else { secs_stream(secs, k - 1) + sec_rows(secs[k - 1].starting_id, secs[k - 1].entries@, secs[k - 1].entries@.len() as int) }
+pub open spec fn pairs_stream(ps: Seq<(u32, Seq<XrefEntry>)>, k: int) -> Seq<u8> decreases k {
+    if k <= 0 { Seq::<u8>::empty() } else { pairs_stream(ps, k - 1) + sec_rows(ps[k - 1].0, ps[k - 1].1, ps[k - 1].1.len() as int) }
 }
-pub open spec fn secs_index(secs: Seq<XrefSection>, k: int) -> Seq<Object> decreases k {
-    if k <= 0 { Seq::<Object>::empty() } else { secs_index(secs, k - 1).push(Object::Integer(secs[k - 1].starting_id as i64)).push(Object::Integer(secs[k - 1].entries@.len() as i64)) }
+pub open spec fn pairs_index(ps: Seq<(u32, Seq<XrefEntry>)>, k: int) -> Seq<SObj> decreases k {
+    if k <= 0 { Seq::<SObj>::empty() } else { pairs_index(ps, k - 1).push(SObj::Integer(ps[k - 1].0 as i64)).push(SObj::Integer((ps[k - 1].1.len() as usize) as i64)) }
 }
-pub open spec fn secs_count(secs: Seq<XrefSection>, k: int) -> int decreases k {
-    if k <= 0 { 0 } else { secs_count(secs, k - 1) + secs[k - 1].entries@.len() }
+pub proof fn lemma_abs_items_prefix(a: Seq<Object>, x: Object, i: int)
+    requires 0 <= i <= a.len() ensures abs_items(a.push(x), i) == abs_items(a, i) decreases i
+{ if i > 0 { lemma_abs_items_prefix(a, x, i - 1); } }
+pub proof fn lemma_abs_items_push(a: Seq<Object>, x: Object)
+    ensures abs_items(a.push(x), a.len() as int + 1) == abs_items(a, a.len() as int).push(abs(x))
+{ lemma_abs_items_prefix(a, x, a.len() as int); }
+pub open spec fn pairs_count(ps: Seq<(u32, Seq<XrefEntry>)>, k: int) -> int decreases k {
+    if k <= 0 { 0 } else { pairs_count(ps, k - 1) + ps[k - 1].1.len() }
 }
-pub proof fn lemma_secs_stream_len(secs: Seq<XrefSection>, k: int)
-    requires 0 <= k ensures secs_stream(secs, k).len() == 7 * secs_count(secs, k) decreases k
-{ if k > 0 { lemma_secs_stream_len(secs, k - 1); lemma_sec_rows_len(secs[k - 1].starting_id, secs[k - 1].entries@, secs[k - 1].entries@.len() as int); } }
+// "Length = 7 x the number of rows the Index pairs announce"
+pub proof fn lemma_pairs_stream_len(ps: Seq<(u32, Seq<XrefEntry>)>, k: int)
+    requires 0 <= k ensures pairs_stream(ps, k).len() == 7 * pairs_count(ps, k) decreases k
+{ if k > 0 { lemma_pairs_stream_len(ps, k - 1); lemma_sec_rows_len(ps[k - 1].0, ps[k - 1].1, ps[k - 1].1.len() as int); } }
 
 // the sections of a cross-reference stream as a function of the entry map: maximal runs of listed numbers in [1, lim)
 pub open spec fn st_present(m: Map<u32, XrefEntry>, id: int) -> bool { 0 < id <= u32::MAX && m.contains_key(id as u32) }
@@ -215,3 +222,8 @@ impl<W: Write> SinkView for CountingWrite<W> {
     open spec fn cap(&self) -> nat { self.inner.cap() }
     open spec fn pos(&self) -> nat { self.bytes_written as nat }
 }
+
+// what create_xref_steam returns for the entry map m and table size `size` (rows for object numbers 1..=size)
+pub open spec fn xref_stream_pairs(m: Map<u32, XrefEntry>, size: u32) -> Seq<(u32, Seq<XrefEntry>)> { st_sections(m, size + 1, 1) }
+pub open spec fn xref_stream_raw(m: Map<u32, XrefEntry>, size: u32) -> Seq<u8> { let ps = xref_stream_pairs(m, size); pairs_stream(ps, ps.len() as int) }
+pub open spec fn xref_stream_index(m: Map<u32, XrefEntry>, size: u32) -> Seq<SObj> { let ps = xref_stream_pairs(m, size); pairs_index(ps, ps.len() as int) }
